@@ -1076,14 +1076,15 @@ func UtxoValidateInsufficientCollateral(
 	if fee == nil {
 		fee = new(big.Int)
 	}
-	minCollateral := new(big.Int).Mul(
+	required := new(big.Int).Mul(
 		fee,
 		new(big.Int).SetUint64(uint64(tmpPparams.CollateralPercentage)),
 	)
-	minCollateral.Div(minCollateral, big.NewInt(100))
-	if totalCollateral.Cmp(minCollateral) >= 0 {
+	if new(big.Int).Mul(totalCollateral, big.NewInt(100)).Cmp(required) >= 0 {
 		return nil
 	}
+	minCollateral := required.Add(required, big.NewInt(99))
+	minCollateral.Div(minCollateral, big.NewInt(100))
 	var providedU, requiredU uint64
 	if totalCollateral.IsUint64() {
 		providedU = totalCollateral.Uint64()
